@@ -552,7 +552,9 @@ fn tokio_scenario(idx: u64, r: &mut Rng, l: &mut Local) {
     let copts = client_options(r, v5);
     let n = r.range(1, 12) as usize;
     let ops = gen_ops(r, n, 1);
-    let racer_n = r.range(0, 6) as usize;
+    // a quarter of the scenarios submit a long burst while close() runs: the window in which a send can
+    // race with the loop dropping its receiver is a few hundred nanoseconds wide
+    let racer_n = if r.chance(1, 4) { r.range(20, 60) as usize } else { r.range(0, 6) as usize };
     let racer_ops = gen_ops(r, racer_n, 1000);
     let settle = *r.pick(&[0u64, 1, 5, 30]);
     let use_stop_first = r.chance(1, 2);
@@ -867,7 +869,7 @@ fn ws_scenario(idx: u64, r: &mut Rng, l: &mut Local) {
 pub fn run_c13(tier: &str, seed: u64) -> i32 {
     let quick = tier != "thorough";
     let plan = FuzzPlan {
-        id: "C13", level: "exploration", cases: std::env::var("VERIF_C13_CASES").ok().and_then(|v| v.parse().ok()).unwrap_or(if quick { 2_400 } else { 60_000 }),
+        id: "C13", level: "exploration", cases: std::env::var("VERIF_C13_CASES").ok().and_then(|v| v.parse().ok()).unwrap_or(if quick { 6_000 } else { 60_000 }),
         rule: "four scenario families per index class: (a) the real threaded client and (b) the real tokio client created through the public new_*_client functions on a scripted in-memory transport (writes accept 1..n bytes or would-block, reads return any fragment, EOF / read error / write error injected, connections refused) with a reference mini-broker behind it: the bytes the transport received must decode as a well-formed MQTT stream whose publishes carry exactly the submitted payloads, inbound publishes must be surfaced in delivery order, and after stop/close racing with submitting threads/tasks every result receiver / future / callback must be resolved exactly once once the event loop is provably gone (a probe submit fails with OperationChannelFailure); (c) a >4096-byte publish on an idle connection; (a') the real threaded client over the websocket stream wrapper (ws_wrap facade) with a framing adapter in front of the same scripted pipe: binary messages of any size, several waiting at once, masked client frames split by partial writes; (d) the threaded websocket stream wrapper alone over an in-memory pipe with frames of any size, several per underlying read, control frames in between and would-block on the underlying write; non-trivial = a scenario reached its oracle; distinct = distinct (family, index, bytes moved)".into(),
         assumptions: vec!["wall clock is used only as a watchdog (counted, never a verdict) except for the corroboration rule C13.R7, whose logical counterpart is C08.R1/R2".into(), "the websocket wrapper is reached through the verif facade (ws_wrap)".into()],
         gates: vec![("c13.close_races_judged", if quick { 500 } else { 12_000 }), ("c13.publishes_verified", if quick { 300 } else { 8_000 }), ("c13.ws_scenarios", if quick { 400 } else { 10_000 }), ("c13.threaded_ws_scenarios", if quick { 200 } else { 5_000 }), ("c13.ws_peer_gone_after_last_message", if quick { 100 } else { 2_500 }), ("c13.results_checked", if quick { 2_500 } else { 60_000 })],
